@@ -6,6 +6,7 @@ CONSTANTS
   MaxUrl = 3
   ReuseOnLookup = FALSE
   FabricatedNorm = FALSE
+  RejectCollision = TRUE
   EmptyParam = FALSE
   WildHostCheck = TRUE
   KF_Shadow = TRUE
@@ -13,5 +14,5 @@ CONSTANTS
   NChunks = 64
   EmitPrefix = "s_"
 SPECIFICATION Spec
-INVARIANTS Accepted OrderIndependent
+INVARIANTS Accepted OrderIndependent OneReading
 CHECK_DEADLOCK FALSE
